@@ -30,7 +30,7 @@ structure Inv (cfg : Config) (inp : Bytes) (s : LB) (r : Reader) (a m rest : Byt
   hstop : s.stopped → s.last = s.buf.length
 
 theorem Inv.init (cfg : Config) (inp : Bytes) (script : List Step) :
-    Inv cfg inp (LB.init cfg) ⟨inp, script⟩ [] [] inp := by
+    Inv cfg inp (LB.init cfg) ⟨inp, script, 0⟩ [] [] inp := by
   refine ⟨rfl, by simp, rfl, ?_, by simp [LB.init], by simp [LB.init], by simp [LB.init], Or.inr rfl, ?_, ?_⟩
   · cases h : cfg.binary <;> simp [LB.init, BinDet.tr, h]
   · unfold BinOK
